@@ -525,6 +525,10 @@ def run(ctx):
                         l2, u2 = str_outcomes(tgt, crate, d + 1)
                         lits.update(l2)
                         unknown.extend(u2)
+                    elif mcrate is None and strip_generics(name).startswith("metrics::common::Unit::as_str"):
+                        # a configuration that builds this crate only: the accessor's table is decided where the
+                        # `metrics` crate is part of the build (default configuration)
+                        lits.add("unit_as_str")
                     else:
                         unknown.append(name)
                 else:
